@@ -29,6 +29,7 @@ import (
 type Hooks struct {
 	mu           sync.Mutex
 	BeforeGet    func(ctx context.Context, key client.ObjectKey, obj client.Object) error
+	AfterGet     func(ctx context.Context, key client.ObjectKey, obj client.Object, err error) // after the read, with its result
 	BeforeList   func(ctx context.Context, list client.ObjectList) error
 	BeforeWrite  func(ctx context.Context, verb string, obj client.Object) error // create/update/patch/delete/status-update/status-patch
 	AfterWrite   func(ctx context.Context, verb string, obj client.Object) error
@@ -40,7 +41,7 @@ var uidSeq atomic.Int64
 func (h *Hooks) get() Hooks {
 	h.mu.Lock()
 	defer h.mu.Unlock()
-	return Hooks{BeforeGet: h.BeforeGet, BeforeList: h.BeforeList, BeforeWrite: h.BeforeWrite, AfterWrite: h.AfterWrite, ObserveWrite: h.ObserveWrite}
+	return Hooks{BeforeGet: h.BeforeGet, AfterGet: h.AfterGet, BeforeList: h.BeforeList, BeforeWrite: h.BeforeWrite, AfterWrite: h.AfterWrite, ObserveWrite: h.ObserveWrite}
 }
 
 // Set replaces hooks atomically.
@@ -112,7 +113,11 @@ func New(hooks *Hooks, objs ...client.Object) client.WithWatch {
 					return err
 				}
 			}
-			return c.Get(ctx, key, obj, opts...)
+			err := c.Get(ctx, key, obj, opts...)
+			if h := hooks.get(); h.AfterGet != nil {
+				h.AfterGet(ctx, key, obj, err)
+			}
+			return err
 		},
 		List: func(ctx context.Context, c client.WithWatch, list client.ObjectList, opts ...client.ListOption) error {
 			if h := hooks.get(); h.BeforeList != nil {
